@@ -40,6 +40,7 @@ FIXED_FRAGMENTS = [
     ["zq62 = ->(zq63) { zq63.zqnope }", "zq62.call(1)"], ["zq64 = [1, 2].collect do |zq65|", "  zq65.zqnope", "  zq65", "end"],
     ["zq66 = [", "  100.zqnope,", "  2", "]"], ["zq67 = (100.zqnope)", "zq68 = true ? 100.zqnope : 2"], ["zq69 = {a: 100.zqnope, b: 2}"],
     ["zq70 = \"a#{100.zqnope}b\""], ["zq71 = 1", "zq71 = 100.zqnope if zq71 == 1"], ["zq72 = 100.zqnope while false"],
+    ["[1].each { }"], ["zq73 = [1, 2].map { }", "zq73.length"], ["zq74 = 1.5.zqnope { }"], ["zq75 = zqnope(1) { 2 }"], ["zq76 = { 2 }"],
     ["zq46 = %w(a b)", "zq47 = :sym"], ["zq48 = 1", "zq48 += 1", "zq48 ||= 2", "zq49 = !zq48.nil?"], ["return_zq = 1 if false"],
 ]
 
